@@ -14,7 +14,9 @@ import logging
 import numbers
 import re
 
-from harness import core
+import os
+
+from harness import bs2v, core
 
 ID = 'C14'
 TITLE = 'Sorted searches and PREVIOUS/NEXT/RANK agree with a linear scan'
@@ -29,11 +31,20 @@ RULE = ('documents with one table T (0-8 rows, thorough up to 12; explicit row i
         'must report an error), values SortKey cannot order such as NaN (only "no internal error"); thorough '
         'adds all tables of <= 4 rows with keys in {0,1,2} x all probes in {-1..3, None}; every formula cell '
         '(row x {lt,le,gt,ge,eq,PREVIOUS,NEXT,RANK asc,RANK desc}) is one evaluation; it is non-trivial when the '
-        'looked-up record set has >= 2 records')
-TRUSTED = ['Model/Bisect.v is hand-written; it is compared with the engine on every formula cell of the generated '
-           'documents (vm_compute of eval_query)',
+        'looked-up record set has >= 2 records; besides, the translated search core is run (vm_compute) against the real '
+        'SortKey / RecordSet / FindOps / PREVIOUS.. objects on stub tables (40 / 600 tables, ~50 calls each: key '
+        'comparisons with sentinels and explicit values, find.*, previous/next/rank, _at, len; sorted and unsorted id '
+        'lists, incomparable values, unknown columns, record sets without sort key) -- counted under translator_validation')
+TRUSTED = ['harness/bs2v.py (own fail-closed translator) and the bindings of Model/BisectPy.v (exception monad, for_zip3, map_m, '
+           'bisect_call = the loop of the bisect module, Record = row id, FindOps(rs) = rs, table = cell function): the '
+           'translation of SortKey.__init__/__lt__, make_sort_key\'s spec loop, RecordSet._at/_get_sort_key/_bisect_index/'
+           '_bisect_find/_find_eq, FindOps.*, PREVIOUS/NEXT/RANK is regenerated from the source on every run, proved '
+           'pointwise equal to the model (Proofs/Bisect_bridge.v), and validated each run by evaluating it (vm_compute) '
+           'and the REAL methods on the same stub tables / record sets (also unsorted lists and incomparable values)',
+           'Model/Bisect.v for what is not translated (make_sort_spec, lookup_records: filter by == and sorted(), group_by): '
+           'compared with the engine on every formula cell of the generated documents (vm_compute of eval_query)',
            'CPython semantics of <, == on None/bool/int/float/str/date/datetime/list/tuple as modelled by cmp3 '
-           '(exact rationals for numbers, code points for strings); bisect module as modelled by bisect_loop',
+           '(exact rationals for numbers, code points for strings)',
            'the lookup index returns the rows whose group-by cells equal the key (property C13); the model filters by ==']
 ASSUMPTIONS = ['sort values and probe values are mutually comparable column by column (no NaN; two lists/tuples in one '
                'column never differ first at items Python cannot order) -- hypothesis `all_comparable`, evaluated on every '
@@ -585,10 +596,198 @@ def _key_eq(a, b):
 
 
 # ---------------------------------------------------------------------------------------------
+# the translated search core (coq/gen/Bisect_gen.v) and its differential validation
+
+def regenerate(ctx):
+  try:
+    text = bs2v.translate(core.GRIST)
+  except bs2v.Untranslatable as e:
+    raise core.TieBroken('sort_key.py / records.py / functions/prevnext.py are outside the translated subset '
+                         '(harness/bs2v.py): %s' % e)
+  core.write_if_changed(os.path.join(core.COQ, 'gen', 'Bisect_gen.v'), text)
+
+
+TQ_DEFS = '''Require Import Grist.Model.BisectPy GristGen.Bisect_gen.
+Inductive tq : Type :=
+| TKeyLt (r1 : rowid) (v1 : option (list val)) (r2 : rowid) (v2 : option (list val))
+| TFind (k : Z) (vals : list val) | TPrev (z : Z) | TNext (z : Z) | TRank (z : Z) (o : list Z)
+| TAt (i : Z) | TLen | TPN (k : Z) (z : Z) (o : list Z).
+Definition run_tq (tbl : pytable) (spec : list (list Z)) (ids : list Z) (haskey sortby : bool) (q : tq) : outcome :=
+  match make_sort_key_spec tbl spec with
+  | Raise e => OutErr e
+  | OK cs =>
+      let cls := mkCls tbl cs in
+      let rs := mkPyrset ids (if haskey then Some cls else None) sortby in
+      let sl := fun (_ : Z) (_ _ : unit) => OK rs in
+      match q with
+      | TKeyLt r1 v1 r2 v2 => out_b (bind (SortKey___init__ cls r1 v1) (fun x =>
+                                     bind (SortKey___init__ cls r2 v2) (fun y => SortKey___lt__ cls x y)))
+      | TFind k v => out_z (if k =? 0 then FindOps_lt rs v else if k =? 1 then FindOps_le rs v else
+                            if k =? 2 then FindOps_gt rs v else if k =? 3 then FindOps_ge rs v else FindOps_eq rs v)
+      | TPrev z => out_z (FindOps_previous rs z)
+      | TNext z => out_z (FindOps_next rs z)
+      | TRank z o => out_z (FindOps_rank rs z o)
+      | TAt i => out_z (RecordSet__at rs i)
+      | TLen => out_z (RecordSet___len__ rs)
+      | TPN k z o => out_z (if k =? 0 then PN_PREVIOUS sl z tt tt else if k =? 1 then PN_NEXT sl z tt tt
+                            else PN_RANK sl z tt tt o)
+      end
+  end.
+'''
+TQ_CHECK = ("fun c => let '(cols, rows, spec, ids, hk, sb, qs) := c in "
+            "forallb (fun qe => outcome_eqb (run_tq (table_of cols rows) spec ids hk sb (fst qe)) (snd qe)) qs")
+TQ_ONE = ("fun c => let '(cols, rows, spec, ids, hk, sb, qe) := c in "
+          "outcome_eqb (run_tq (table_of cols rows) spec ids hk sb (fst qe)) (snd qe)")
+TV_POOL = [None, None, True, 0, 1, 2, 2.0, 0.5, -1, 'a', 'b', '', ['d', 0], ['d', 86400], ['D', 5, 'UTC'],
+           ['L'], ['L', 1], ['L', 1, 2], ['L', 'x'], ['L', None], ['L', 1, 'y'], ['L', ['L', 1]]]
+
+
+def _outcome(fn):
+  import records
+  try:
+    r = fn()
+  except TypeError:
+    return 'OutErr ExTypeError'
+  except ValueError:
+    return 'OutErr ExValueError'
+  except Exception:         # pylint: disable=broad-except
+    return 'OutErr ExOther'
+  if isinstance(r, bool):
+    return 'OutB %s' % core.boollit(r)
+  if isinstance(r, records.Record):
+    r = int(r)
+  if isinstance(r, int):
+    return 'OutZ %s' % core.zlit(r)
+  return 'OutErr ExOther'
+
+
+def translator_cases(ctx):
+  """(coq case, description) list: the REAL SortKey / RecordSet / FindOps / PREVIOUS.. on stub tables."""
+  core.setup_impl_path()
+  import records
+  import sort_key
+  from functions import prevnext
+  rng = ctx.rng
+  SMIN, SMAX = records._min_row_id, records._max_row_id
+  out = []
+  for _ in range(ctx.n(40, 600)):
+    ncols = rng.choice([1, 1, 2, 3])
+    cols = ['A', 'B', 'C'][:ncols]
+    n = rng.choice([0, 1, 2, 3, 4, 5, 7])
+    ids = sorted(rng.sample(range(1, 20), n))
+    pool = rng.sample(TV_POOL, rng.choice([2, 3, 5, len(TV_POOL)]))
+    cells = {c: {i: dec(rng.choice(pool), tup=rng.random() < 0.1) for i in ids} for c in cols}
+    spec = [rng.choice(['', '-']) + c for c in rng.sample(cols, rng.randint(1, ncols))]
+    if rng.random() < 0.06:
+      spec.append(rng.choice(['Nope', '-', '']))
+
+    class Col(object):
+      def __init__(self, d):
+        self.d = d
+      def get_cell_value(self, row_id):
+        return self.d[row_id]
+
+    class Table(object):
+      table_id = 'T'
+      _identity_relation = None
+      def __init__(self):
+        self.cols = {c: Col(cells[c]) for c in cols}
+        self.rs = None
+      def get_column(self, c):
+        return self.cols[c]
+      def lookup_records(self, **_kw):
+        return self.rs
+
+    t = Table()
+    t.Record = type('Record', (records.Record,), {'_table': t})
+    t.RecordSet = type('RecordSet', (records.RecordSet,), {'_table': t})
+    qs = []
+    try:
+      K = sort_key.make_sort_key(t, tuple(spec))
+    except Exception:        # pylint: disable=broad-except
+      K = None
+    haskey = rng.random() < 0.9
+    sortby = rng.random() < 0.3
+    if K is not None and ids and rng.random() < 0.8:
+      order = sorted(ids, key=K)
+    else:
+      order = list(ids)
+      rng.shuffle(order)
+    if order and rng.random() < 0.05:
+      order.append(99)                      # a row id the table does not have
+    if K is None:
+      qs.append(('TLen', 'OutErr ExOther'))
+    else:
+      rs = t.RecordSet(order, sort_key=K if haskey else None, sort_by='A' if sortby else None)
+      t.rs = rs
+      def vals():
+        k = rng.choice([0, 1, 1, 1, 2, 2, 3])
+        return tuple(dec(rng.choice(pool if rng.random() < 0.8 else TV_POOL), tup=rng.random() < 0.1) for _ in range(k))
+      def optv():
+        return None if rng.random() < 0.5 else vals()
+      def rowid():
+        r = rng.random()
+        return SMIN if r < 0.15 else SMAX if r < 0.3 else rng.choice(ids + [1])
+      def c_rowid(r):
+        return 'RNegInf' if r == SMIN else 'RPosInf' if r == SMAX else '(RId %s)' % core.zlit(r)
+      def c_optv(v):
+        return 'None' if v is None else '(Some %s)' % core.coq_list([coq_val(x) for x in v])
+      for _ in range(6):
+        r1, v1, r2, v2 = rowid(), optv(), rowid(), optv()
+        qs.append(('(TKeyLt %s %s %s %s)' % (c_rowid(r1), c_optv(v1), c_rowid(r2), c_optv(v2)),
+                   _outcome(lambda: K(r1, v1) < K(r2, v2))))
+      for k, name in enumerate(FIND_OPS):
+        for _ in range(2):
+          v = vals()
+          qs.append(('(TFind %d %s)' % (k, core.coq_list([coq_val(x) for x in v])),
+                     _outcome(lambda: getattr(rs.find, name)(*v))))
+      for z in (rng.sample(ids, min(len(ids), 3)) + [1]):
+        rec = t.Record(z)
+        qs.append(('(TPrev %s)' % core.zlit(z), _outcome(lambda: rs._find.previous(rec))))
+        qs.append(('(TNext %s)' % core.zlit(z), _outcome(lambda: rs.find.next(rec))))
+        for o in ('asc', 'desc', 'down'):
+          qs.append(('(TRank %s %s)' % (core.zlit(z), core.strlit(o)), _outcome(lambda: rs.find.rank(rec, order=o))))
+        qs.append(('(TPN 0 %s [])' % core.zlit(z), _outcome(lambda: prevnext.PREVIOUS(rec, order_by='A'))))
+        qs.append(('(TPN 1 %s [])' % core.zlit(z), _outcome(lambda: prevnext.NEXT(rec, group_by='G', order_by=None)
+                                                          if False else prevnext.NEXT(rec, order_by=None))))
+        qs.append(('(TPN 2 %s %s)' % (core.zlit(z), core.strlit('asc')), _outcome(lambda: prevnext.RANK(rec, order_by='A'))))
+        qs.append(('(TPN 2 %s %s)' % (core.zlit(z), core.strlit('desc')),
+                   _outcome(lambda: prevnext.RANK(rec, order_by='A', order='desc'))))
+      for i in range(-2, len(order) + 2):
+        qs.append(('(TAt %s)' % core.zlit(i), _outcome(lambda: rs._at(i))))
+      qs.append(('TLen', _outcome(lambda: len(rs))))
+    rows_txt = core.coq_list(['(%s, %s)' % (core.zlit(i), core.coq_list(['(%s, %s)' % (core.strlit(c), coq_val(cells[c][i]))
+                                                                          for c in cols])) for i in ids]) \
+      if ids else '(@nil (Z * list (list Z * val)))'
+    head = '%s, %s, %s, %s, %s, %s' % (core.coq_list([core.strlit(c) for c in cols]), rows_txt,
+                                       core.coq_list([core.strlit(c) for c in spec]), core.zlist(order) if order else '(@nil Z)',
+                                       core.boollit(haskey), core.boollit(sortby))
+    out.append((head, qs, {'cols': cols, 'cells': repr(cells), 'spec': spec, 'ids': order, 'haskey': haskey}))
+  return out
+
+
+def validate_translation(ctx):
+  cases = translator_cases(ctx)
+  imports = ['Grist.Model.Bisect']
+  coq = ['(%s, %s)' % (head, core.coq_list(['(%s, %s)' % q for q in qs])) for head, qs, _ in cases]
+  bad = ctx.run_cases('tr', imports, TQ_CHECK, coq, shard=ctx.n(60, 150), timeout=900, extra_defs=TQ_DEFS)
+  nq = sum(len(qs) for _, qs, _ in cases)
+  ctx.extra['translator_validation'] = {'stub_tables': len(cases), 'calls_compared': nq, 'disagreements': len(bad)}
+  for ci in bad[:4]:
+    head, qs, desc = cases[ci]
+    badq = ctx.run_cases('trone%d' % ci, imports, TQ_ONE, ['(%s, (%s, %s))' % (head, q, e) for q, e in qs], shard=500,
+                         timeout=600, extra_defs=TQ_DEFS)
+    for qi in badq[:3]:
+      ctx.broken('translation:the Gallina translated by harness/bs2v.py differs from the running code',
+                 'call %s: the code gives %s; table %r' % (qs[qi][0], qs[qi][1], desc))
+  ctx.log('translator validation: %d stub tables, %d calls, %d tables disagree' % (len(cases), nq, len(bad)))
+
+
+# ---------------------------------------------------------------------------------------------
 
 def docs(ctx):
   out = []
-  for _ in range(ctx.n(110, 1400)):
+  for _ in range(ctx.n(90, 1400)):
     out.append(gen_doc(ctx.rng, ctx.tier))
   for _ in range(ctx.n(6, 40)):
     out.append(gen_doc(ctx.rng, ctx.tier, empty_spec=True))
@@ -621,6 +820,7 @@ def observed(ctx):
 
 
 def correspond(ctx):
+  validate_translation(ctx)
   cases, meta = [], []
   for doc, obs, rows in observed(ctx):
     if doc['robust']:
@@ -743,13 +943,18 @@ def replay(ctx, w):
   return bad[1] if bad else None
 
 
-TECHNIQUE = ('Coq proof over a hand-written executable model (SortKey order, bisect loops, FindOps, PREVIOUS/NEXT/RANK) + '
-             'per-cell differential check of the model against the real engine + linear-scan oracle on the implementation')
+TECHNIQUE = ('Coq proof over the search core translated from source on every run (SortKey.__lt__/__init__, RecordSet._bisect_*, '
+             '_find_eq, _at, FindOps.*, PREVIOUS/NEXT/RANK; harness/bs2v.py) bridged pointwise to a hand-written model, on which the '
+             'linear-scan theorems are proved + differential validation of the translation against the running methods + '
+             'per-cell differential check of the whole model against the real engine + linear-scan oracle on the implementation')
 LEVEL_TEXT = ('Kernel-checked theorems, for record sets of any length: the SortKey order is a strict total order on mutually '
               'comparable keys with distinct row ids; bisect_left/right return the partition point; find.lt/le/gt/ge/eq equal '
               'the linear-scan definitions for all probe tuples (shorter or longer than the sort spec); PREVIOUS/NEXT/RANK '
               'asc/desc give the neighbours and 1-based positions of the record in its ordered group, with duplicate and '
-              'mixed-type sort values. The model is compared with the engine on every formula cell of generated documents.')
-LEVEL_NOTE = ('Trusted: Coq kernel; faithfulness of Model/Bisect.v (checked differentially each run); CPython comparison '
+              'mixed-type sort values. The same statements are proved about the Gallina translated from records.py, sort_key.py '
+              'and prevnext.py on every run (C14_code_*, via bridging lemmas C14_bridge_*), so a semantic edit of those methods '
+              'breaks a proof. The model is also compared with the engine on every formula cell of generated documents.')
+LEVEL_NOTE = ('Trusted: Coq kernel; the bs2v translator and its bindings (validated differentially each run); faithfulness of '
+              'Model/Bisect.v for the untranslated lookup part (checked differentially each run); CPython comparison '
               'semantics as modelled. Hypotheses: values mutually comparable per column (NaN excluded), distinct row ids, '
               'non-empty sort spec and probe.')
